@@ -116,3 +116,47 @@ prop("C12",
      level_note="Trusted: gen/rdb.go writer (ziplist/intset/zipmap/quicklist layouts transcribed from Redis' ziplist.c/intset.c/zipmap.c), sameObj comparison. Bounds: <=300 elements, ziplists <65535 entries.",
      assumptions=["NaN scores are only generated for the EncodeDump round trip (Redis never stores NaN)",
                   "sets, hashes and sorted sets decoded from compact encodings are compared as sets/maps (Redis materialises unordered structures); lists keep order"])
+
+prop("C09",
+     title="The pipe is a lossless, deadlock-free FIFO byte stream with exact close rules",
+     timing=True,
+     quick=[{"re": "^TestC09$", "checks": 4000},
+            {"re": "^TestC09Concurrent$", "checks": 1200, "shards": 4}],
+     thorough=[{"re": "^TestC09$", "checks": 400000, "shards": 8, "timeout": 1700},
+               {"re": "^TestC09Concurrent$", "checks": 80000, "shards": 8, "timeout": 1700}],
+     rule="(sequential) rapid state machine (t.Repeat) over Write(k)/Read(k)/zero-length read/Buffered/Available/writer Close|CloseWithError/"
+          "reader CloseWithError on memory pipes of 1,2,3,5 alignment units (requests aligned or not) and file pipes of 1 or 3 x 4 MiB; chunk sizes "
+          "around 1, cap-1, cap, cap+1, cap/2+-1, cap/3; only non-blocking calls are issued; model = stream counters + two close flags; after every "
+          "call: returned n/err, content (position-dependent byte pattern), Buffered, Available compared with the model; drain-then-writer's-error "
+          "and closed-pipe/reader-error rules. (concurrent) one writer and one reader goroutine run generated scripts (writes up to 2*cap+3, reads, "
+          "yields/sleeps, 'fill': after freeing space the pipe must refill to capacity or the writer finish within 8 s, 'drain': what was written "
+          "must be consumed within 8 s, reader close at a generated point, writer close with/without error); oracle: bytes read == prefix of the "
+          "stream, complete + writer's error after a normal close, writer fails with the reader's error after reader close, no side parked in the "
+          "condition variable past the limit (confirmed from goroutine stacks). Non-trivial: sequential run with >=1 ring wrap and a writer close "
+          "with buffered data; concurrent run moving more bytes than the capacity. Distinct = hash of the op history / scripts.",
+     technique="stateful property-based testing (rapid state machine vs a FIFO reference model) + generated two-goroutine schedules with bounded-wait wake-up oracles",
+     level_text="Model-based generated histories for the sequential semantics (every return value checked against the model after every step) and generated schedules for wake-ups; the Go scheduler's interleavings are sampled, not enumerated.",
+     level_note="Trusted: the FIFO model in c09_test.go. Blocking calls are issued only in the concurrent part. Bounded waiting (8 s) stands in for 'woken by progress'; a miss is reported only when goroutine stacks show a side parked in the pipe's sync.Cond.",
+     assumptions=["one writer and one reader (as the statement says)",
+                  "a Read may return any 1<=n<=min(len, buffered) bytes; only content and order are fixed"])
+
+prop("C18",
+     title="The backlog ring returns the bytes written at an offset, or says they are gone",
+     timing=True,
+     quick=[{"re": "^TestC18$", "checks": 3000},
+            {"re": "^TestC18Waiters$", "checks": 1500, "shards": 3}],
+     thorough=[{"re": "^TestC18$", "checks": 300000, "shards": 8, "timeout": 1700},
+               {"re": "^TestC18Waiters$", "checks": 100000, "shards": 8, "timeout": 1700}],
+     rule="(sequential) rapid state machine over Write(k) (k from 0 to 2*cap+5, so many wrap-arounds), ReadAt(k,o) with o drawn around rpos-3..rpos+3, "
+          "wpos-3..wpos+3, the middle, 0 and random, NewReader, Reader.Read, IsValid, SeekTo (to the current offset, around the range edges), Offset, "
+          "DataRange, Close; memory backlogs of 1,2,3,5 alignment units and file backlogs of 1 or 3 x 4 MiB; model = total written + capacity + "
+          "position-dependent byte pattern; only non-blocking calls are issued. After every call: invalid-offset error iff o > wpos or o+cap < wpos, "
+          "else 1<=n<=min(k,wpos-o) bytes equal to what was written at o; DataRange == (max(0,wpos-cap), wpos); validity <=> rpos<=seek<=wpos; "
+          "reads/writes after Close fail. (waiters) 1-5 readers (ReadAt or Reader.Read) block at the write position, then a write (<= cap) or Close: "
+          "all must return within 8 s with the data / with an error (goroutine stacks decide between defect and harness trouble). Non-trivial: "
+          "sequential run with >= 2x capacity written and both valid and invalid-offset reads; waiter case with >= 2 readers. Distinct = hash of history.",
+     technique="stateful property-based testing (rapid state machine vs an absolute-offset reference model) + generated multi-reader wake-up scenarios",
+     level_text="Model-based generated histories: every return value is compared with the model after every step, offsets are drawn around the exact validity boundaries modulo capacity; wake-ups by bounded waiting with stack confirmation.",
+     level_note="Trusted: the offset model in c18_test.go. Zero-length reads and DataRange/validity after Close are left unspecified (the statement does not fix them). CloseWithError's custom error is not demanded (the statement asks for 'an error').",
+     assumptions=["ReadAt at exactly the write position blocks and is issued only in the waiter scenarios",
+                  "a waiting reader may legitimately get invalid-offset when a single write larger than the capacity overwrites its offset; waiter writes are <= capacity"])
